@@ -103,7 +103,7 @@ func c08BuildWorkload(c *Ctx, maxBlocks, maxTxs int, kinds []int, forceTerms boo
 	}
 	var sibs []sib
 	var last *types.Block
-	chainRun(c, net, g, f, ChainRunOpts{Kinds: kinds, MaxBlocks: maxBlocks, MaxTxs: maxTxs, Terms: terms, NoDumps: true,
+	chainRun(c, net, g, f, ChainRunOpts{Kinds: kinds, MaxBlocks: maxBlocks, MaxTxs: maxTxs, Terms: terms, NoDumps: true, NoStableLag: true,
 		OnBlock: func(r *BlockRec) bool {
 			w.Main = append(w.Main, r.Block)
 			last = r.Block
